@@ -31,8 +31,10 @@ bookkeeping of `ts_output/alternative.cpp`:
 * The engine part is the minimum needed: targets tick first (producers are ranked before the
   selection operator, C01), then the selector, then the scheduled consumers are evaluated once,
   gated by input validity unless the input is `InputValidity::Unchecked`.
-* `startSched`: inside a `nested_` graph an all-`Unchecked` consumer is evaluated once at child
-  start (known finding F2 of C09); the model only reproduces the effect.
+* `startSched` / `resample`: inside a `nested_` graph an all-`Unchecked` consumer is evaluated once at
+  child start, and - when the boundary input of the nested graph is the reference itself - at every
+  tick of the reference (known finding F2 of C09, `nested_bindings.h` sampled input consumers); the
+  model only reproduces the effect.
 
 Times are cycle numbers (`now = i + 1` in engine cycle `i`, `0` = never).  Targets and consumers
 are numbered; collections are association lists `key ↦ value` (TS: the single key `0`; TSS: the
@@ -149,6 +151,10 @@ structure State where
   /-- consumers scheduled for the current cycle -/
   sched : List Nat := []
   now : Nat := 0
+  /-- consumers that are scheduled by every tick of the REF output itself: an all-`Unchecked` consumer
+      inside a `nested_` graph whose boundary input IS the reference (the boundary re-bind samples the
+      consumers that accept an invalid input - same mechanism as known finding F2 of C09) -/
+  resample : List Nat := []
 
 def upd {α : Type} (f : Nat → α) (i : Nat) (v : α) : Nat → α := fun j => if j = i then v else f j
 
@@ -200,7 +206,8 @@ def select (s : State) (sel : Option Nat) : State :=
     if s.ref = some i then s    -- same-reference de-duplication: no tick
     else
       -- the REF output ticks; the from-REF alternative re-binds every consumer below it
-      (List.range s.nC).foldl (fun st c => retargetOne st c i) { s with ref := some i, refLmt := s.now }
+      (List.range s.nC).foldl (fun st c => retargetOne st c i)
+        { s with ref := some i, refLmt := s.now, sched := s.sched ++ s.resample }
 
 /-- what a consumer reads through its link -/
 structure View where
@@ -292,9 +299,11 @@ structure Cfg where
   checked : Nat → Bool := fun _ => true
   /-- consumers evaluated once at start (all-`Unchecked` consumer inside a `nested_` graph) -/
   startSched : List Nat := []
+  /-- consumers scheduled by every REF tick (see `State.resample`) -/
+  resample : List Nat := []
 
 def init (cfg : Cfg) : State :=
   { shape := cfg.shape, nC := cfg.nC, nT := cfg.nT,
-    links := fun c => { checked := cfg.checked c }, sched := cfg.startSched }
+    links := fun c => { checked := cfg.checked c }, sched := cfg.startSched, resample := cfg.resample }
 
 end HgVerif.RefLink
